@@ -10,8 +10,14 @@ use crate::common::*;
 use crate::sim::{apply_op, facts, c_simstate, Progs};
 
 pub fn run(sc: &Scenario) -> String {
+    run_with(sc, Progs::new(), false)
+}
+
+/// `reduced`: the observations avoid the representation of process states (Python twins)
+pub fn run_with(sc: &Scenario, progs0: Progs, reduced: bool) -> String {
     let mut out = String::new();
-    let mut progs = Progs::new();
+    let mut progs = progs0;
+    crate::mc::REDUCED.with(|c| c.set(reduced));
     let mut verbose = false;
     let mut seed = 12345u64;
     let mut sys: Option<System> = None;
@@ -26,11 +32,22 @@ pub fn run(sc: &Scenario) -> String {
             phase = 1;
             continue;
         }
+        if kw == "RAISE" {
+            // the Python twin raises at this invocation of this process (ignored by the Rust twin)
+            let p = t.u64();
+            let k = t.u64() as i64;
+            if progs.python.is_some() {
+                progs.raise_at = Some((p, k));
+            }
+            continue;
+        }
         if kw == "CONTINUE" {
             if sys.is_none() {
                 sys = Some(System::new(seed));
             }
             let s = sys.as_ref().unwrap();
+            // C18: the source processes before the checker copies them
+            let src_before: Vec<String> = if reduced { source_states(s) } else { vec![] };
             let r = std::panic::catch_unwind(std::panic::AssertUnwindSafe(|| ModelChecker::new(s)));
             match r {
                 Err(_) => {
@@ -43,6 +60,11 @@ pub fn run(sc: &Scenario) -> String {
                     let node_of = |p: u64| loc.get(&pname(p)).map(|n| num(n)).unwrap_or(0);
                     let rest: Vec<String> = mc_lines.iter().filter(|l| !l.starts_with("CLOCK")).cloned().collect();
                     out.push_str(&crate::mc::run_lines(&rest, Some(mc), Some((node_of(0), node_of(1)))));
+                    if reduced {
+                        // copies made for model checking share nothing with the originals
+                        let same = source_states(s) == src_before;
+                        writeln!(out, "SRCSTATE {}", if same { "same" } else { "CHANGED" }).unwrap();
+                    }
                 }
             }
             phase = 2;
@@ -83,11 +105,13 @@ pub fn run(sc: &Scenario) -> String {
                             tr.len()
                         };
                         nlog = tr_len;
-                        let st = c_simstate(s);
-                        if verbose {
-                            writeln!(out, "STATE {}", st).unwrap();
-                        } else {
-                            writeln!(out, "STATE {}", fnv(&st)).unwrap();
+                        if !reduced {
+                            let st = c_simstate(s);
+                            if verbose {
+                                writeln!(out, "STATE {}", st).unwrap();
+                            } else {
+                                writeln!(out, "STATE {}", fnv(&st)).unwrap();
+                            }
                         }
                         out.push_str(&facts(s));
                     }
@@ -95,6 +119,62 @@ pub fn run(sc: &Scenario) -> String {
             }
             s => panic!("bad HANDOFF line {}", s),
         }
+    }
+    if reduced {
+        if let Some(s) = sys.as_ref() {
+            // save / restore round trip of every process
+            let mut ok = true;
+            let mut names = s.process_names();
+            names.sort();
+            for p in names {
+                let nn = s.proc_node_name(&p);
+                let mut node = s.get_mut_node(&nn).unwrap();
+                let st1 = node.get_process(&p).map(|x| format!("{:?}", x.state().unwrap()));
+                if let Some(pr) = node.get_process(&p) {
+                    let stv = pr.state().unwrap();
+                    node.set_process_state(&p, stv);
+                }
+                let st2 = node.get_process(&p).map(|x| format!("{:?}", x.state().unwrap()));
+                if st1 != st2 {
+                    ok = false;
+                }
+            }
+            writeln!(out, "ROUNDTRIP {}", if ok { "same" } else { "CHANGED" }).unwrap();
+        }
+    }
+    crate::mc::REDUCED.with(|c| c.set(false));
+    out
+}
+
+fn source_states(s: &System) -> Vec<String> {
+    let mut names = s.process_names();
+    names.sort();
+    names
+        .iter()
+        .map(|p| {
+            let nn = s.proc_node_name(p);
+            let node = s.get_node(&nn).unwrap();
+            node.get_process(p).map(|x| format!("{:?}", x.state().unwrap())).unwrap_or_default()
+        })
+        .collect()
+}
+
+/// PYTWIN scenarios: the same HANDOFF script run with Rust twins (issuing grouped by kind) and with Python twins
+pub fn run_twins(sc: &Scenario) -> String {
+    std::env::set_var("PYTHONPATH", "/repo/python");
+    let mut out = String::new();
+    let mut pr = Progs::new();
+    pr.grouped = true;
+    out.push_str("TWIN rust\n");
+    out.push_str(&run_with(sc, pr, true));
+    let mut pp = Progs::new();
+    let path = concat!(env!("CARGO_MANIFEST_DIR"), "/py/script_proc.py");
+    pp.python = Some(std::rc::Rc::new(anysystem::python::PyProcessFactory::new(path, "ScriptProc")));
+    out.push_str("TWIN python\n");
+    let r = std::panic::catch_unwind(std::panic::AssertUnwindSafe(|| run_with(sc, pp, true)));
+    match r {
+        Ok(s) => out.push_str(&s),
+        Err(_) => out.push_str("TWINPANIC\n"),
     }
     out
 }
